@@ -23,6 +23,7 @@ type RealNode struct {
 	dir    string
 	srv    *replica.Server
 	router http.Handler
+	isClone bool // started with --type clone: its clone status is driven by the clone process, not set to NA
 }
 
 var holesOnce sync.Once
@@ -66,7 +67,7 @@ func (n *RealNode) Dir() string             { return n.dir }
 func (n *RealNode) ServeHTTP(w http.ResponseWriter, r *http.Request) {
 	rec := httptest.NewRecorder()
 	n.router.ServeHTTP(rec, r)
-	if r.Method == "POST" && r.URL.Query().Get("action") == "open" && rec.Code == 200 && n.srv.Replica() != nil {
+	if r.Method == "POST" && r.URL.Query().Get("action") == "open" && rec.Code == 200 && n.srv.Replica() != nil && !n.isClone {
 		// the tail of app.startReplica: once the replica is open a non-clone replica reports clone status NA
 		if n.srv.Replica().GetCloneStatus() == "" {
 			n.srv.Replica().SetCloneStatus("NA")
